@@ -79,7 +79,8 @@ pub fn conv_case<T: Sc>(rng: &mut Rng, idx: usize) -> (FitCase<T>, Vec<T>, DMatr
         }
         ctrue.set_column(c, &coef);
     }
-    let wkind = if (idx / 2) % 3 == 1 { WKind::Positive } else { WKind::None };
+    // (a constant weight vector - the same sigma for every sample - is a weighted problem too)
+    let wkind = match (idx / 2) % 6 { 1 | 4 => WKind::Positive, 3 => WKind::Constant, _ => WKind::None };
     let w = random_weights(rng, wkind, n, m).map(|w| w.iter().map(|v| T::of(*v)).collect());
     let init: Vec<T> = truth.iter().map(|v| T::of(v * (1.0 + rng.uniform(-0.03, 0.03)))).collect();
     let flavour = if s > 1 {
